@@ -34,6 +34,7 @@ pub enum Container {
     FastaWrapped(usize),
     FastaCrlf,
     Fastq,
+    FastqWrapped(usize),
 }
 
 impl Container {
@@ -43,10 +44,11 @@ impl Container {
             Container::FastaWrapped(w) => format!("fasta-wrapped({})", w),
             Container::FastaCrlf => "fasta-crlf".into(),
             Container::Fastq => "fastq".into(),
+            Container::FastqWrapped(w) => format!("fastq-wrapped({})", w),
         }
     }
     pub fn is_fastq(&self) -> bool {
-        matches!(self, Container::Fastq)
+        matches!(self, Container::Fastq | Container::FastqWrapped(_))
     }
     pub fn serialise(&self, recs: &[Rec]) -> Vec<u8> {
         match self {
@@ -54,11 +56,12 @@ impl Container {
             Container::FastaWrapped(w) => ser::to_fasta(recs, &SerOpts { wrap: Some(*w), crlf: false, final_newline: true }),
             Container::FastaCrlf => ser::to_fasta(recs, &SerOpts { wrap: None, crlf: true, final_newline: false }),
             Container::Fastq => ser::to_fastq(recs, &SerOpts::plain()),
+            Container::FastqWrapped(w) => ser::to_fastq(recs, &SerOpts { wrap: Some(*w), crlf: false, final_newline: true }),
         }
     }
     pub fn suffix(&self, rng: &mut Rng) -> &'static str {
         match self {
-            Container::Fastq => *rng.pick(&["fq", "fastq"]),
+            Container::Fastq | Container::FastqWrapped(_) => *rng.pick(&["fq", "fastq"]),
             _ => *rng.pick(&["fa", "fasta", "fna"]),
         }
     }
